@@ -17,7 +17,8 @@ Definition lg (l : level) (t : string) : logmsg := {| lvl := l; text := s t; ext
 Definition differs (c : option N) (p : prog) (sc : script) : Prop :=
   legal p sc = true /\ proj_eqb (run_pipe p sc) (run_http (cfg_of c) p sc) = false.
 
-(* max_response_bytes is a hard cap for unary (and exchange) results: the HTTP client gets RuntimeError instead *)
+(* NOT a finding -- documents the adopted reading (DESIGN Appendix E): max_response_bytes is a documented hard cap for
+   unary and exchange results (C16); the theorems carry the premise [fits] *)
 Lemma C01_http_hard_cap_refuted : exists c p sc, differs c p sc /\ fits (cfg_of c) p sc = false.
 Proof. exists (Some 1), (PUnary {| ulogs := []; ures_of := UOk 1 |}), (SUnary CbRecord). vm_compute. repeat split; reflexivity. Qed.
 
